@@ -3325,8 +3325,10 @@ class Parameters:
                 # dealing with object and it's been set on this object
                 value = cls_or_slf._param__private.values[name]
             else:
-                # dealing with class or isn't set on the object
-                value = param_obj.default
+                # dealing with class or isn't set on the object: attribute
+                # access falls back on the class-level Parameter (a
+                # per-instance copy keeps the default it was created with)
+                value = self_.cls.param[name].default
 
         return value
 
@@ -3378,7 +3380,10 @@ class Parameters:
             if isinstance(cls_or_slf,type):
                 value = param_obj._inspect(None,cls_or_slf)
             else:
-                value = param_obj._inspect(cls_or_slf,None)
+                # inspected through the class-level Parameter, like attribute
+                # access (a per-instance copy keeps the default it was
+                # created with)
+                value = self_.cls.param[name]._inspect(cls_or_slf,None)
 
         return value
 
